@@ -42,6 +42,11 @@ CLAIMED = {
         "Trusted: exact rational arithmetic (vcore). One known finding (positional output truncated at ~231 characters for values below radix^-200).",
         "property-based testing against an exact-arithmetic error-bound oracle",
     ),
+    "C08": (
+        "For every compiled format that has both a writer and a parser for a type (12 integer types x radix and sign formats; f32/f64 x radices, mixed bases, write-flag, syntax-flag and the 147 prebuilt formats): generated values incl. +-0, +-inf, NaN x generated write options without digit truncation (min digits, breaks, trim, custom punctuation, special strings) with agreeing parse options: the complete parser of the same format accepts every written byte and returns the identical bits (integers, decimal and power-of-two floats, zeros, infinities; NaN->NaN; acceptance only for generic radices).",
+        "Trusted: nothing beyond the harness plumbing (round-trip relation). Specials are skipped when their string is disabled, the format forbids specials, or the string is itself a number of the format (large radices / letter punctuation).",
+        "property-based testing of a write/parse round-trip relation",
+    ),
     "C09": (
         "For every compiled writer (12 integer types x every radix format; f32/f64 x core, write-flag, syntax and prebuilt formats): generated values x generated valid write options (max/min digits up to 2000, exponent breaks over the whole i32 range incl. i32::MIN/MAX, round mode, trim, punctuation, special strings) x buffer lengths {bound, bound+1, bound+7} and lengths below the bound (0, generated, bound-1, written-1, written), every buffer being a guard-page slice of exactly that length in both placements inside supervised worker processes; release and debug-assertion builds. Monitor/oracle: the bound evaluates, no panic with len >= bound, returned slice is a prefix within the bound, short buffers succeed in-slice or panic, canaries intact, no fault.",
         "Trusted: kernel page protection, crash attribution via the shared progress record; specials with a disabled string are excluded (documented panic); bounds above 8 GiB skipped.",
@@ -76,6 +81,16 @@ CLAIMED = {
         "Parse side: generated (format, float type, nan/inf/infinity option strings from a fixed pool of 1..50 letter strings incl. None) x inputs derived from a configured string (exact, prefixes, one-byte extensions, case flips, 0x20-neighbours, separator insertion, sign variants) compared with a reference matcher; numeric inputs never yield NaN and keep the sign of zero; the partial parser returns specials only for configured strings. Write side: +-0, +-inf, NaNs with either sign bit and payloads x every compiled writer format x option strings or None: exact bytes, sign rules, panic when disabled, zero parses back with its sign.",
         "Trusted: reference matcher in harness/vcore/refparse.rs; radices >= 19 (where special strings are partly numeric) are excluded here and covered by the C11 finding. One known finding (separator run before a special string is skipped).",
         "property-based testing against a reference matcher + round-trip relations",
+    ),
+    "C16": (
+        "One seeded stream of default-API cases (decimal float strings incl. midpoint-derived and special-string variants, integer strings near the limits, integer values, float bit patterns) is evaluated in 8 (quick) / 12 (thorough) builds over {std, compact, power-of-two, radix, format}; per chunk of 1024 cases a 128-bit hash per result class (parse value bits/count/error kind+index; integer bytes; float bytes) is compared across builds (float bytes across non-compact builds); a differing chunk is dumped in both builds to name the first differing case. Compact float output must parse back to the same bits.",
+        "Trusted: the stream is a pure function of VERIF_SEED (proptest ChaCha RNG); hash collisions (128-bit) are ignored; this host's target only.",
+        "differential testing across build configurations on a generated input stream",
+    ),
+    "C17": (
+        "lexical::to_string / to_string_with_options vs lexical_core::write / write_with_options (bytes equal, panic iff panic, valid UTF-8) for 14 types in the default API and {f32, f64, i64, u8} x up to five facade-instantiated formats x generated valid options; lexical::parse* vs lexical_core::parse* (four entry points) on generated texts for six types; every byte emitted by every compiled catalogue writer under generated valid options is 7-bit ASCII.",
+        "Trusted: 'valid options' = the options builders' is_valid(); only five formats are instantiated for the facade (const generic).",
+        "property-based differential testing (facade vs core) plus an output-alphabet invariant",
     ),
     "C18": (
         "Run-time builder states (rebuild -> build_unchecked / build_strict under catch_unwind) exhaustively over all 2^18 syntax-flag words, all 2^13 separator-flag words x separator set/unset, all 256 values of every punctuation / radix field, all punctuation triples from a 12-byte set, plus generated joint states, against a reference validity predicate written from the documentation; every catalogue entry's compile-time verdict vs the reference vs the run-time builder; every compiled invalid format x inputs (configuration error, never a value or panic); generated invalid decimal point / exponent options on valid formats (InvalidPunctuation from complete and partial float parsers); generated setter sequences on the format builder (documented bit layout, getters, rebuild) and the options builders.",
